@@ -139,11 +139,11 @@ from pdpy11.parser import parse
 from pdpy11.compiler import Compiler
 class TO(Exception): pass
 def alarm(*a): raise TO()
-signal.signal(signal.SIGALRM, alarm)
+signal.signal(signal.SIGVTALRM, alarm)   # CPU time, not wall-clock time: robust on a busy machine
 out = []
 for src in json.load(sys.stdin):
     diags = []
-    signal.alarm(10)
+    signal.setitimer(signal.ITIMER_VIRTUAL, 10)
     try:
         try:
             with reports.handle_reports(lambda p, i, *l: diags.append(i if p is not reports.warning else None)):
@@ -159,7 +159,7 @@ for src in json.load(sys.stdin):
         except Exception as e:
             out.append(["crash", "IntStrLimit" if isinstance(e, ValueError) and "integer string conversion" in str(e) else type(e).__name__])
     finally:
-        signal.alarm(0)
+        signal.setitimer(signal.ITIMER_VIRTUAL, 0)
 print(json.dumps(out))
 ''' % driver.tree_root()
     bad, known = [], []
@@ -231,10 +231,10 @@ from pdpy11.parser import parse
 from pdpy11.compiler import Compiler
 class TO(Exception): pass
 def alarm(*a): raise TO()
-signal.signal(signal.SIGALRM, alarm)
+signal.signal(signal.SIGVTALRM, alarm)   # CPU time, not wall-clock time: robust on a busy machine
 out = []
 for src in json.load(sys.stdin):
-    signal.alarm(5)
+    signal.setitimer(signal.ITIMER_VIRTUAL, 5)
     try:
         try:
             with reports.handle_reports(lambda *a: None):
@@ -244,7 +244,7 @@ for src in json.load(sys.stdin):
         except TO: out.append("timeout")
         except Exception as e: out.append("crash:" + type(e).__name__)
     finally:
-        signal.alarm(0)
+        signal.setitimer(signal.ITIMER_VIRTUAL, 0)
 print(json.dumps(out))
 ''' % driver.tree_root()
     p = subprocess.run(["/venv/bin/python", "-c", code], input=json.dumps([c for c, _ in cases]), capture_output=True, text=True, timeout=120, cwd="/")
